@@ -95,9 +95,11 @@ type Case struct {
 	ReqDevRules bool `json:"req_dev_rules,omitempty"`
 	// HugePod: the pod of the request carries an annotation that alone makes the request
 	// larger than the 4 MiB message limit of the plugin protocol
-	HugePod bool     `json:"huge_pod,omitempty"`
-	Chain   []Script `json:"chain"`
-	Par     int      `json:"par,omitempty"` // number of identical requests in flight (different ids)
+	HugePod bool `json:"huge_pod,omitempty"`
+	// Crowd: instead of a fixture case, a crowd (see crowd_test.go)
+	Crowd *Crowd   `json:"crowd,omitempty"`
+	Chain []Script `json:"chain"`
+	Par   int      `json:"par,omitempty"` // number of identical requests in flight (different ids)
 	// Pal selects the value palette the case is rendered with (render.go: plain, big numbers,
 	// negative numbers, odd strings).
 	Pal int `json:"pal,omitempty"`
@@ -1074,4 +1076,11 @@ func sortedTargets(m map[string][]int) []string {
 	}
 	sort.Strings(out)
 	return out
+}
+
+// Crowd: N filler plugins that each claim an item of their own, and two colliders behind them.
+type Crowd struct {
+	Fillers int    `json:"fillers"`
+	Item    string `json:"item"`
+	Control bool   `json:"control,omitempty"` // only one collider: the request must succeed
 }
